@@ -135,7 +135,7 @@ fn boundary_sweep_history() -> History {
             reopen: i % 211 == 17,
         });
     }
-    History { pagesize: 1024, num_pages: 8, strict: false, populate: false, txs, origin: format!("boundary sweep: {} value lengths around the page-size multiples", lens.len()) }
+    History { pagesize: 1024, num_pages: 8, strict: false, populate: false, txs, origin: format!("boundary sweep: {} value lengths around the page-size multiples", lens.len()), pins: vec![] }
 }
 
 /// A free list of more than a thousand entries (several pages at the small page sizes) that is
@@ -167,7 +167,7 @@ fn freelist_reopen_history() -> History {
     t.reopen = true;
     txs.push(t);
     txs.push(small(7));
-    History { pagesize: 1024, num_pages: 8, strict: false, populate: false, txs, origin: "free list of >1000 entries across reopen".into() }
+    History { pagesize: 1024, num_pages: 8, strict: false, populate: false, txs, origin: "free list of >1000 entries across reopen".into(), pins: vec![] }
 }
 
 /// growth run: from the minimum file through several 8 MiB extension steps
@@ -188,7 +188,7 @@ fn growth_history(total_mib: usize, chunk_kib: usize) -> History {
         }
         txs.push(TxScript { ops, end: End::Commit, reopen: t % 2 == 1 });
     }
-    History { pagesize: 4096, num_pages: 4, strict: false, populate: false, txs, origin: format!("growth run {} MiB in {} KiB values", total_mib, chunk_kib) }
+    History { pagesize: 4096, num_pages: 4, strict: false, populate: false, txs, origin: format!("growth run {} MiB in {} KiB values", total_mib, chunk_kib), pins: vec![] }
 }
 
 /// one commit that needs several extension steps at once (a bulk load), then ordinary commits
@@ -202,7 +202,7 @@ fn bulk_growth_history(mib: usize) -> History {
     txs.push(TxScript { ops, end: End::Commit, reopen: false });
     // read back through the same handle (the executor does) and keep going on it
     txs.push(TxScript { ops: vec![Op::TxGet { k: K::lit(b"bulk"), how: How::Slice }, Op::Put { h: 0, k: K::lit(b"after"), v: V { tag: 1, len: 100 }, how: How::Slice, vhow: How::Slice }, Op::Scan { h: 0 }], end: End::Commit, reopen: true });
-    History { pagesize: 4096, num_pages: 4, strict: false, populate: false, txs, origin: format!("bulk load of {} MiB in a single commit", mib) }
+    History { pagesize: 4096, num_pages: 4, strict: false, populate: false, txs, origin: format!("bulk load of {} MiB in a single commit", mib), pins: vec![] }
 }
 
 /// walk the page high-water mark, one small commit at a time, across the end of the file that the
@@ -229,7 +229,7 @@ fn boundary_walk_history(ps: u64) -> History {
         ];
         txs.push(TxScript { ops, end: End::Commit, reopen: false });
     }
-    History { pagesize: ps, num_pages: 4, strict: false, populate: false, txs, origin: format!("boundary walk across the first extension at page size {}", ps) }
+    History { pagesize: ps, num_pages: 4, strict: false, populate: false, txs, origin: format!("boundary walk across the first extension at page size {}", ps), pins: vec![] }
 }
 
 /// A value of a little over 16 MiB is stored, deleted, and replaced by one whose leaf is exactly one
@@ -254,7 +254,7 @@ fn huge_value_history(ps: u64) -> History {
     ];
     txs.last_mut().unwrap().reopen = true;
     txs.push(tx(vec![Op::TxGet { k: K::lit(b"blob"), how: How::Slice }, Op::Scan { h: 0 }, Op::TxBuckets]));
-    History { pagesize: ps, num_pages: 4, strict: false, populate: false, txs, origin: format!("16 MiB value replaced by one whose leaf is {} pages + 1 byte", k) }
+    History { pagesize: ps, num_pages: 4, strict: false, populate: false, txs, origin: format!("16 MiB value replaced by one whose leaf is {} pages + 1 byte", k), pins: vec![] }
 }
 
 // ---------------------------------------------------------------------------
